@@ -406,7 +406,7 @@ let header_case (toks : string list) : string =
     let w = M.date_write (z_of_int (int_of_string secs)) in
     (match M.date_parse w with
      | None -> "DT " ^ hex_of_bytes w ^ " err"
-     | Some b -> Printf.sprintf "DT %s %s %s" (hex_of_bytes w) (decimal_of_z b) (hex_of_bytes (M.date_write b)))
+     | Some b -> Printf.sprintf "DT %s %s %s via=%s" (hex_of_bytes w) (decimal_of_z b) (hex_of_bytes (M.date_write b)) (decimal_of_z b))
   | [ "CQ"; top; sub; q ] ->
     (* Content-Type with a quality: the media type model of C18 (MimeModel.build_string / parse_media) *)
     let w = M.build_string (n_of_int (int_of_string top)) (n_of_int (int_of_string sub)) None (Some (n_of_int (int_of_string q))) [] in
